@@ -6,7 +6,9 @@
 mod common;
 mod eng_comb;
 mod eng_reader;
+mod eng_renumber;
 mod eng_scan;
+mod eng_writer;
 
 use common::*;
 use std::io::{BufRead, Write};
@@ -24,6 +26,8 @@ pub fn run_line(line: &str) -> (String, Vec<String>) {
         "reader" => eng_reader::run_case(&eng_reader::Case::parse(line)),
         "comb" => eng_comb::run_case(line),
         "scan" => eng_scan::run_case(line),
+        "writer" => eng_writer::run_case(line),
+        "renumber" => eng_renumber::run_case(line),
         _ => ("unknown-engine".into(), vec![]),
     }
 }
@@ -53,11 +57,19 @@ fn main() {
                 }
                 return;
             }
+            if engine == "renumber" {
+                // deep chain / cycle: termination without native-stack growth, once per run
+                for l in eng_renumber::deep_cases(thorough) {
+                    writeln!(out, "{}", l).unwrap();
+                }
+            }
             for _ in 0..n {
                 let mut r = rng.fork();
                 let line = match engine {
                     "reader" => eng_reader::gen_case(&mut r, opt.contains("lies"), thorough).line(),
                     "scan" => eng_scan::gen_case(&mut r, thorough),
+                    "writer" => eng_writer::gen_case(&mut r, thorough),
+                    "renumber" => eng_renumber::gen_case(&mut r, thorough),
                     _ => panic!("unknown engine {}", engine),
                 };
                 writeln!(out, "{}", line).unwrap();
